@@ -214,7 +214,7 @@ PROPS = {
     "C04": pool_prop([]),
     "C05": pool_prop([]),
     "C06": pool_prop_plus([], [("GcpVerif.Proofs.Sync", "GcpVerif.Sync.c06_no_self_acquire"), ("GcpVerif.Proofs.Sync", "GcpVerif.Sync.c06_order_acyclic")], ["wall-clock bounds are observed by the harness watchdog (3 s per call), not proved"]),
-    "C07": pool_prop(["disabled_never_refreshes", "response_resets", "isResponse_iff", "stale_call_ignored", "refresh_trigger", "window_exponential", "refresh_once"], ["unresponsive_detection_ms * 2^k < 2^32 (the Go code computes the window in uint32; known finding K2)"]),
+    "C07": pool_prop(["disabled_never_refreshes", "response_resets", "isResponse_iff", "stale_call_ignored", "refresh_trigger", "window_exponential", "window_monotone_or_saturated", "refresh_once"], ["unresponsive_detection_ms * 2^k < 2^32 (the Go code computes the window in uint32; known finding K2)"]),
     "C08": pool_prop(["fallback_sticky", "fallback_new", "bound_ready_home", "lookup_preserves_binding"]),
     "C09": pool_prop(["rr_next_slot", "rrSlot_succ"], ["fairness: the cursor does not pass 2^32-1 inside the window unless n divides 2^32 (known finding K1); no Shutdown report for a pool member"]),
     "C20": dict(pool_prop(["resolver_error_identity"]), theorems=pool_thms(["resolver_error_identity"]) + [("GcpVerif.Proofs.Ties", "GcpVerif.Ties.resolver_error_only_logs")]),
